@@ -18,3 +18,8 @@ fn main() {
     std::process::exit(checks::main(&args[1..]));
 }
 mod e3_state;
+mod e4_adt;
+/// the interpreter crate under the name the ADT/interpreter engines use (the Miri crate
+/// binds it to `revm_interpreter` directly)
+pub use revm::interpreter as itp;
+mod e5_interp;
